@@ -222,7 +222,7 @@ func RunWorker(t *testing.T, scenarios map[string]*Scenario) {
 	if in.Procs > 0 {
 		runtime.GOMAXPROCS(in.Procs)
 	}
-	Watchdog(60 * time.Second)
+	Watchdog(150 * time.Second)
 	start := time.Now()
 	out := &WorkerOut{Prop: in.Prop, Worker: in.Worker, Faults: map[string]int{}, Probes: map[string]int{}, Cover: map[string]int{}, Policies: map[string]int{}}
 	a := &agg{out: out, sched: map[uint64]struct{}{}, nont: map[uint64]struct{}{}, state: map[uint64]struct{}{}, found: map[string]*Found{}}
